@@ -23,7 +23,7 @@ func init() {
 		Shards: func(tier string) int { return map[string]int{"quick": 8, "thorough": 16}[tier] },
 		Run: func(c *Ctx) {
 			c.P.Rule = "random families"
-			c.Rapid("lr0", c.Pick(2500, 60000), func(t *rapid.T) {
+			c.Rapid("lr0", c.Pick(10000, 100000), func(t *rapid.T) {
 				gc := DrawGrammar(t, []string{"uniform", "productive", "nullable", "separators", "lalr", "uniform-small"})
 				if msg := evalC09(c, gc); msg != "" {
 					c.Fail(gc, msg)
